@@ -13,12 +13,16 @@ def _oracle_fails(script, sig):
     ann, outs = impl.run_script(script)
     return any(x.startswith('ORACLE-FAIL') and _sig(x) == sig for o in outs for x in o)
 
-def _has_diff(script):
+def _has_diff(script, target=None):
+    """a model/implementation difference -- the same one when `target` (command, impl output,
+    model output) is given"""
     try:
         diffs, _, _ = run.compare([script], procs=1)
     except Exception:
         return True
-    return len(diffs) > 0
+    if target is None:
+        return len(diffs) > 0
+    return any((d[2].split('\n')[0], d[3], d[4]) == target for d in diffs)
 
 def _units(script):
     if 'echo --' not in script:
@@ -71,10 +75,13 @@ def shrink_oracle(script, oracle_name, sig):
     except Exception:
         return script
 
-def shrink_diff(script):
+def shrink_diff(script, target=None):
+    import os
+    if os.environ.get('VERIF_NOSHRINK'):
+        return script
     try:
-        if not _has_diff(script):
+        if not _has_diff(script, target):
             return script
-        return _ddmin(script, _has_diff, budget=150)
+        return _ddmin(script, lambda s: _has_diff(s, target), budget=150)
     except Exception:
         return script
